@@ -1,30 +1,50 @@
 (* C02  Balance report equals an independent ledger computation.
    Specification: Spec/LedgerSpec.v (closed form over the flat list of dated postings after accrual
-   expansion: user_entries, closing_entries, mapped_entries, period_amount, ledger_csv).
+   expansion: user_entries, closing_entries, mapped_entries, period_amount, ledger_row, ledger_csv).
 
-   Proved at full strength: without --close, every cell of the report trees of the model equals
-   (as a rational value) the closed-form sum -- for every journal, window, interval, --last,
-   filter, mapping (any level and suffix) and remap (C02_cells_noclose).  The cumulative / --diff
-   presentation of a row is C02_row_cumulative.
-   PARTIAL: with --close the same statement includes Spec.LedgerSpec.closing_entries (the amounts
-   carried to Equity:Equity at each period start, in closed form).  The stateful CloseAccounts
-   processor has not yet been proved equal to that closed form; the full statement is
+   Proved at full strength, for every journal, window, interval, --last (any integer), filter,
+   mapping (any level and suffix), remap, with and without --close:
 
-     Theorem C02_cells : bc_valuation cfg = None -> balance_report cfg ds = COk (r, part) ->
-       exists dl, parse_directives ds = MOk dl /\ ... /\ forall row c col,
+   C02_cells  every cell of the report trees of the model equals (as a rational value) the
+       closed-form sum
+
          rcell row (Some col, Some c) r ==
          dvalue (period_amount (mapped_entries cfg (user_entries (span part) (periods part) (flat_postings dl) ++
                    (if bc_close cfg then closing_entries (flat_postings dl) (closable_keys (span part) (flat_postings dl))
                                                          (p_start (span part)) (periods part) else [])))
-                 (acc_eqb row) c col).
+                 (acc_eqb row) c col)
 
-   and is, for now, decided only by the correspondence: on every run ledger_csv (which uses exactly
-   that expression) is compared with the binary's CSV and the model's CSV for journals with --close.
-   The layout of the CSV (row order, commodity lines, totals) is likewise compared, not proved. *)
+   C02_rows   the report has a node (every node is rendered as a row) for exactly the accounts
+       ledger_row lists: In row (rows r) <-> ledger_row cfg dl row -- the mapped account of an
+       entry of that same list (a booking inside the window passing the filters, or a half of a
+       closing entry with a non-zero amount), or a parent of one.
+
+   With --close both say that the stateful CloseAccounts processor (Model/Pipeline.v close_proc,
+   closing_txns; Go: lib/journal/process.go CloseAccounts) equals Spec.LedgerSpec.closing_entries:
+   at the start of every shown period, for every account that is neither A/L nor Equity:Equity,
+   what it accumulated inside the window since the previous period start (since the window start
+   for the first period) is moved to Equity:Equity under that period's column, and the
+   accumulator starts again.  Proofs/CloseProofs.v (cells: close_day is the invariant -- after a
+   day, for every weight g, the g-weighted sum of c_qty = the g-weighted sum of the closable
+   postings since the last closing day; close_days, DD_nxt, regroup, RS_find, report_cells) and
+   Proofs/LayoutProofs.v (rows: close_days_set gives the state at every closing day as the sum of
+   the postings whose next period start it is; state_nonzero, spec_close_keys, report_rows).
+   Hypothesis with --close only: [postings_syntactic dl] (Spec/LedgerSyntax.v): every posting account
+   is one the parser can produce (first segment an account type, no colon and no NUL byte inside a
+   segment).  The model keys CloseAccounts' map by the string name ++ NUL ++ commodity where knut
+   uses (account, commodity) pointers; the two agree exactly under this condition, and
+   C02_cells_unsyntactic_refuted shows that the model (not knut) merges two keys without it.
+   The cumulative / --diff presentation of a row is C02_row_cumulative.
+
+   Not proved, decided by the correspondence on every run: the text of the CSV (that the renderer
+   emits one block of lines per node in the order of all_rows, the commodity lines of a row, the
+   total and delta lines, the printed form of the numbers), i.e. balance_csv = the rendering of
+   ledger_csv as a theorem.  ledger_csv is built from exactly the expression above and is
+   compared with the binary's CSV and the model's CSV on every run. *)
 From Coq Require Import ZArith List Bool.
 From Coq Require Import QArith.
 From Knut Require Import Model.Str Model.Dec Model.Date Model.Account Model.Ledger Model.Report Model.Cli Spec.LedgerSpec
-     Proofs.DecValue Proofs.LedgerProofs.
+     Spec.LedgerSyntax Proofs.DecValue Proofs.LedgerProofs Proofs.CloseProofs Proofs.LayoutProofs.
 Import ListNotations.
 Open Scope Z_scope.
 
@@ -68,6 +88,64 @@ Theorem C02_cells_noclose : forall cfg ds r part,
 Proof. exact report_cells_noclose. Qed.
 Print Assumptions C02_cells_noclose.
 
+(* The same with and without --close: with --close the entries include, at every period start,
+   the amounts carried from the closed accounts to Equity:Equity (closing_entries). *)
+Theorem C02_cells : forall cfg ds r part,
+  bc_valuation cfg = None ->
+  balance_report cfg ds = COk (r, part) ->
+  exists dl,
+    parse_directives ds = MOk dl /\
+    new_partition (clip (mkPeriod (bc_from cfg) (bc_to cfg)) (journal_period dl)) (bc_interval cfg) (bc_last cfg) = POk part /\
+    ((bc_close cfg = true -> postings_syntactic dl) ->
+     forall row c col,
+       (rcell row (Some col, Some c) r ==
+        dvalue (period_amount (mapped_entries cfg (user_entries (span part) (periods part) (flat_postings dl) ++
+                  (if bc_close cfg
+                   then closing_entries (flat_postings dl) (closable_keys (span part) (flat_postings dl)) (p_start (span part)) (periods part)
+                   else [])))
+                (acc_eqb row) c col))%Q).
+Proof. exact report_cells. Qed.
+Print Assumptions C02_cells.
+
+(* Which rows exist: the report has a node (rows r: the paths of all nodes of the two trees but the
+   roots; the renderer emits every node) exactly for the accounts the independent computation lists. *)
+Theorem C02_rows : forall cfg ds r part,
+  bc_valuation cfg = None ->
+  balance_report cfg ds = COk (r, part) ->
+  exists dl,
+    parse_directives ds = MOk dl /\
+    ((bc_close cfg = true -> postings_syntactic dl) ->
+     forall row, In row (rows r) <-> ledger_row cfg dl row).
+Proof. exact report_rows. Qed.
+Print Assumptions C02_rows.
+
+(* the hypothesis follows from what Spec/WellformedSpec.v calls a syntactic journal (C04), and has
+   an executable form *)
+Theorem C02_syntactic_sufficient : forall dl, WellformedSpec.syntactic dl -> postings_syntactic dl.
+Proof. exact syntactic_postings. Qed.
+Print Assumptions C02_syntactic_sufficient.
+
+Theorem C02_syntactic_decidable : forall dl, postings_syntactic_b dl = true <-> postings_syntactic dl.
+Proof. exact postings_syntactic_b_iff. Qed.
+Print Assumptions C02_syntactic_decidable.
+
+(* Why C02_cells carries the hypothesis postings_syntactic: an account segment with a NUL byte
+   (which the parser never produces) makes two (account, commodity) pairs share one position key
+   of the MODEL's close stage (pos_key = name ++ NUL ++ commodity), which then carries their sum
+   under one of them; the statement without the hypothesis is false of the model.  knut itself
+   keys by (account, commodity) pointers and is not affected. *)
+Theorem C02_cells_unsyntactic_refuted :
+  exists cfg ds r part dl row c col,
+    bc_valuation cfg = None /\ balance_report cfg ds = COk (r, part) /\ parse_directives ds = MOk dl /\
+    ~ (rcell row (Some col, Some c) r ==
+       dvalue (period_amount (mapped_entries cfg (user_entries (span part) (periods part) (flat_postings dl) ++
+                 (if bc_close cfg
+                  then closing_entries (flat_postings dl) (closable_keys (span part) (flat_postings dl)) (p_start (span part)) (periods part)
+                  else [])))
+               (acc_eqb row) c col))%Q.
+Proof. exact cells_unsyntactic_refuted. Qed.
+Print Assumptions C02_cells_unsyntactic_refuted.
+
 (* the builder loses and duplicates nothing: the dated postings of its days are a permutation
    of the journal's postings, each in the day of its date *)
 Theorem C02_builder_complete : forall dl,
@@ -82,3 +160,40 @@ Theorem C02_row_cumulative : forall diff neg_ vals c dates,
   Forall2 cell_is (Report.row_numbers diff neg_ vals c dates Ledger.dec_nil) (row_values diff neg_ vals c dates 0%Q).
 Proof. intros. apply row_numbers_values. reflexivity. Qed.
 Print Assumptions C02_row_cumulative.
+
+(* non-vacuity: a journal over four months with --close.  Income of January (-1000) is carried to
+   Equity:Equity at the start of February, income and expenses of February (-1000 + 200) at the
+   start of March, the expenses of March (+300) at the start of April; the closed accounts are
+   credited back the same amounts in the same column (Income:S shows +1000 in March, Expenses:R
+   300 - 200).  Both sides of C02_cells are evaluated.  The row Equity:Equity (and its parent
+   Equity) exists only because of the closing entries. *)
+Example C02_close_example :
+  let acc s := acc_of_name s in
+  let A := [65;115;115;101;116;115;58;66] (* Assets:B *) in
+  let I := [73;110;99;111;109;101;58;83] (* Income:S *) in
+  let E := [69;120;112;101;110;115;101;115;58;82] (* Expenses:R *) in
+  let EQ := [s_Equity; s_Equity] in
+  let chf := [67;72;70] in
+  let d0 := Date.of_civil 2020 1 5 in
+  let ds := [ SOpen d0 (acc A); SOpen d0 (acc I); SOpen d0 (acc E);
+              STxn (mkStxn (d0 + 1) [] [mkBooking (acc I) (acc A) (mkDec 1000 0) chf] None None);
+              STxn (mkStxn (d0 + 35) [] [mkBooking (acc A) (acc E) (mkDec 200 0) chf] None None);
+              STxn (mkStxn (d0 + 40) [] [mkBooking (acc I) (acc A) (mkDec 1000 0) chf] None None);
+              STxn (mkStxn (d0 + 70) [] [mkBooking (acc A) (acc E) (mkDec 300 0) chf] None None);
+              STxn (mkStxn (d0 + 89) [] [mkBooking (acc A) (acc E) (mkDec 50 0) chf] None None) ] in
+  let cfg := mkBalanceCfg 0 (d0 + 90) Monthly 0 false true None true [] [] [] [] [] true in
+  match balance_report cfg ds, parse_directives ds with
+  | COk (r, part), MOk dl =>
+    let es := mapped_entries cfg (user_entries (span part) (periods part) (flat_postings dl) ++
+                closing_entries (flat_postings dl) (closable_keys (span part) (flat_postings dl)) (p_start (span part)) (periods part)) in
+    let feb := Date.of_civil 2020 2 29 in let mar := Date.of_civil 2020 3 31 in let apr := d0 + 89 in
+    postings_syntactic_b dl = true /\
+    length (periods part) = 4%nat /\
+    (rcell EQ (Some feb, Some chf) r == -1000 # 1)%Q /\ (dvalue (period_amount es (acc_eqb EQ) chf feb) == -1000 # 1)%Q /\
+    (rcell EQ (Some mar, Some chf) r == -800 # 1)%Q /\ (dvalue (period_amount es (acc_eqb EQ) chf mar) == -800 # 1)%Q /\
+    (rcell EQ (Some apr, Some chf) r == 300 # 1)%Q /\ (dvalue (period_amount es (acc_eqb EQ) chf apr) == 300 # 1)%Q /\
+    (rcell (acc I) (Some mar, Some chf) r == 1000 # 1)%Q /\ (rcell (acc E) (Some mar, Some chf) r == 100 # 1)%Q /\
+    existsb (acc_eqb EQ) (rows r) = true /\ existsb (acc_eqb [s_Equity]) (rows r) = true /\ length (rows r) = 8%nat
+  | _, _ => False
+  end.
+Proof. vm_compute. repeat split. Qed.
